@@ -3,7 +3,7 @@
 From Coq Require Import String.
 From Coq Require Import List Strings.Byte NArith ZArith Bool.
 Require Import Bytes Show Tables Codec Norm CleanPath Chain.
-Require Serve Rot Ser ResetLang ResetModel ResetClass Range UriSplit TrailerKeys Rd Chunk HeaderBlock RespFrame Pool Router.
+Require Serve Rot Ser ResetLang ResetModel ResetClass Range UriSplit TrailerKeys Rd Chunk HeaderBlock RespFrame Pool Router Bind.
 Import ListNotations.
 
 Definition arg (args : list bs) (i : nat) : bs := nth i args [].
@@ -56,6 +56,7 @@ Definition entries : list (bs * (list bs -> bs)) := [
   (B "parse_uint_buf", fun a => Range.show_pu (Range.parse_uint_buf (arg a 0)));
   (B "rd_script", fun a => Rd.rd_script a);
   (B "pool_script", fun a => Pool.pool_script a);
+  (B "bind_one", fun a => Bind.bind_one a);
   (B "route_find", fun a => Router.route_find (bs_eqb (arg a 0) (B "1")) (skipn 2 a) (arg a 1));
   (B "header_block_len", fun a => HeaderBlock.show_opt_nat (HeaderBlock.header_block_len (arg a 0)));
   (B "dechunk", fun a => Chunk.show_dres (Chunk.dechunk (S (length (arg a 0))) (parse_N (arg a 1)) (arg a 0) []));
